@@ -49,14 +49,17 @@ func main() {
 			agg.Require("accepted_keys", 100)
 			agg.Require("rejected", 1000)
 			agg.Require("accepted_because_key_already_stored", 5)
+			agg.Require("messages_gnosis", 1000)
+			agg.Require("messages_service", 1000)
 		},
 	})
 }
 
 type world struct {
-	a, b   *gossipnet.World  // two keyper sets with different eon keys (cfg 3 and cfg 4)
-	other  *fixtures.EonKeys // an eon key set nobody uses
-	idPool [][]byte
+	a, b    *gossipnet.World  // two keyper sets with different eon keys (cfg 3 and cfg 4)
+	other   *fixtures.EonKeys // an eon key set nobody uses
+	idPool  [][]byte
+	flavour gossipnet.Flavour
 }
 
 type recvState struct {
@@ -72,13 +75,18 @@ func runCase(env *vlib.Env, idx int, rep *vlib.Reporter) {
 	if idx%4 == 3 {
 		n, t = 4, 3
 	}
+	flavour := []gossipnet.Flavour{gossipnet.Core, gossipnet.Core, gossipnet.Gnosis, gossipnet.Service}[(idx/7)%4]
 	wa := gossipnet.NewWorld(env.Seed+uint64(idx%3), n, t)
 	wb := gossipnet.NewWorld(env.Seed+uint64(idx%3), n, t) // same keypers
 	wb.Eon = fixtures.NewEonKeys(env.Seed+777, n, t)
 	wb.CfgIndex, wb.EonNo, wb.Activation = 4, 9, 500
-	w := &world{a: wa, b: wb, other: fixtures.NewEonKeys(env.Seed+999, n, t)}
+	w := &world{a: wa, b: wb, other: fixtures.NewEonKeys(env.Seed+999, n, t), flavour: flavour}
 	for i := 0; i < 4; i++ {
-		id := r.Bytes(8 + r.Intn(30))
+		size := gossipnet.IDSize(flavour)
+		if size == 0 {
+			size = 8 + r.Intn(30)
+		}
+		id := r.Bytes(size)
 		id[0] = byte(0x20 * (i + 1))
 		w.idPool = append(w.idPool, id)
 	}
@@ -91,7 +99,7 @@ func runCase(env *vlib.Env, idx int, rep *vlib.Reporter) {
 	if st.db == gossipnet.StateNotMember {
 		me = -1
 	}
-	node, err := gossipnet.NewNode(ctx, wa, gossipnet.Core, me, st.db)
+	node, err := gossipnet.NewNode(ctx, wa, flavour, me, st.db)
 	if err != nil {
 		rep.Inconclusive("node: " + err.Error())
 		return
@@ -136,7 +144,7 @@ func runCase(env *vlib.Env, idx int, rep *vlib.Reporter) {
 	for i := 0; i < perCase; i++ {
 		g := genMessage(r, w, n, storedHint)
 		want := g.expect(w, st, me, setBKnown, storedVal)
-		desc := fmt.Sprintf("state=%s stored=%s me=%d %s", st.db, st.stored, me, g.label)
+		desc := fmt.Sprintf("flavour=%s state=%s stored=%s me=%d %s", flavour, st.db, st.stored, me, g.label)
 		before := node.DBNode.DB.Snapshot()
 		writes = writes[:0]
 		var res pubsub.ValidationResult
@@ -144,7 +152,8 @@ func runCase(env *vlib.Env, idx int, rep *vlib.Reporter) {
 			return
 		}
 		rep.Obs("messages", 1)
-		rep.Eval(string(st.db)+"/"+st.stored+"/"+g.label, len(g.muts) > 0 || st.db != gossipnet.StateMemberSuccess)
+		rep.Obs("messages_"+string(flavour), 1)
+		rep.Eval(string(flavour)+"/"+string(st.db)+"/"+st.stored+"/"+g.label, len(g.muts) > 0 || st.db != gossipnet.StateMemberSuccess)
 		if len(writes) > 0 {
 			rep.Violationf("validator-writes", map[string]any{"case": desc, "writes": append([]string{}, writes...)}, "the validator issued write statements: %v", writes)
 			return
@@ -440,9 +449,14 @@ func genMessage(r *vlib.Rng, w *world, n int, storedHint map[int][]byte) *genMsg
 		for _, e := range g.entries {
 			sm.Shares = append(sm.Shares, &p2pmsg.KeyShare{IdentityPreimage: w.idPool[e.id], Share: e.bytes})
 		}
-		if r.Intn(6) == 0 {
+		if w.flavour == gossipnet.Core && r.Intn(6) == 0 {
 			sm.Extra = &p2pmsg.DecryptionKeyShares_Service{Service: &p2pmsg.ShutterServiceDecryptionKeySharesExtra{Signature: r.Bytes(65)}}
 			g.muts = append(g.muts, "extra-set")
+		}
+		if w.flavour != gossipnet.Core {
+			// a correct flavour extra, signed by the (Byzantine but authorised) sender: the flavour's
+			// own validator is satisfied, the core rules must still be enforced by the combined validator
+			set.SignShares(w.flavour, sm, set.Keypers.Keys[signer], gossipnet.DefaultSlot, gossipnet.DefaultPtr)
 		}
 		m, g.topic = sm, kprtopics.DecryptionKeyShares
 	} else {
@@ -450,9 +464,12 @@ func genMessage(r *vlib.Rng, w *world, n int, storedHint map[int][]byte) *genMsg
 		for _, e := range g.entries {
 			km.Keys = append(km.Keys, &p2pmsg.Key{IdentityPreimage: w.idPool[e.id], Key: e.bytes})
 		}
-		if r.Intn(6) == 0 {
+		if w.flavour == gossipnet.Core && r.Intn(6) == 0 {
 			km.Extra = &p2pmsg.DecryptionKeys_Gnosis{Gnosis: &p2pmsg.GnosisDecryptionKeysExtra{Slot: 3, SignerIndices: []uint64{0}, Signatures: [][]byte{r.Bytes(65)}}}
 			g.muts = append(g.muts, "extra-set")
+		}
+		if w.flavour != gossipnet.Core {
+			set.SignKeys(w.flavour, km, gossipnet.FirstSigners(set.T), gossipnet.DefaultSlot, gossipnet.DefaultPtr)
 		}
 		m, g.topic = km, kprtopics.DecryptionKeys
 	}
